@@ -30,6 +30,7 @@ from symx.segbytes import SegBytes, symlen
 from ai_edge_quantizer import model_modifier
 
 PROP = 'C16'
+USES_SHIM = False
 LEVEL = 'model_checking'
 FUNCS = [model_modifier.ModelModifier._process_constant_map,
          model_modifier.ModelModifier._serialize_large_model,
